@@ -90,3 +90,27 @@ __CPROVER_requires(FN_RI_OK(ri)) __CPROVER_assigns() __CPROVER_ensures(__CPROVER
 #define FS_FIRST(ri, st, upto) (((st) < (upto) && (st) < PH_MAXLEN && FS_CONTRIB(ri, st)) || ((st) + 1 < (upto) && (st) + 1 < PH_MAXLEN && FS_PASS(ri, st) && FS_CONTRIB(ri, (st) + 1)))
 #define FS_NULLABLE(ri, st, upto) (((st) < (upto) && (st) < PH_MAXLEN ? FS_PASS(ri, st) : 1) && ((st) + 1 < (upto) && (st) + 1 < PH_MAXLEN ? FS_PASS(ri, (st) + 1) : 1))
 #define VX_BS_EMPTY(b) (__CPROVER_forall { size_t vq_be; (vq_be < CB_WORDS) ==> (b).data[vq_be] == 0 })
+/* ---- analyze_states(): the work-list loop; closure / transitions / add_situation are abstract (each is under its own contract):
+   they may grow item lists and add states, never shrink or rewrite them; ghost flags record that they were called for the
+   ghost-chosen state g_s, list position g_i (item value g_item) and symbol g_y ---- */
+size_t g_s, g_i, g_y2; size32_t g_item; bool g_cl_hit, g_tr_hit, g_root_added, g_done_ok; size32_t g_root_item;
+#define AS_GROW(st) (states__all_situations_vec[st].N == __CPROVER_old(states__all_situations_vec[st]).N && states__all_situations_vec[st].current_size >= __CPROVER_old(states__all_situations_vec[st]).current_size \
+   && states__all_situations_vec[st].current_size <= states__all_situations_vec[st].N \
+   && __CPROVER_forall { size_t vq_ag; (vq_ag < VX_CAP) ==> (vq_ag < __CPROVER_old(states__all_situations_vec[st]).current_size ==> states__all_situations_vec[st].the_data[vq_ag] == __CPROVER_old(states__all_situations_vec[st]).the_data[vq_ag]) })
+#define AS_ITEMS_OK(st) (VX_SV_WF(states__all_situations_vec[st]) && __CPROVER_forall { size_t vq_ai; (vq_ai < VX_CAP) ==> (vq_ai < states__all_situations_vec[st].current_size ==> states__all_situations_vec[st].the_data[vq_ai] < situation_address_space_size) })
+void vx_closure_any(size16_t state_idx, size32_t sit_idx)
+__CPROVER_requires(state_idx < state_count && state_count <= state_count_cap && sit_idx < situation_address_space_size && AS_ITEMS_OK(state_idx))
+__CPROVER_assigns(g_cl_hit, states__all_situations_vec[state_idx])
+__CPROVER_ensures(AS_GROW(state_idx) && AS_ITEMS_OK(state_idx) && g_cl_hit == (__CPROVER_old(g_cl_hit) || (state_idx == g_s && sit_idx == g_item)));
+void vx_transitions_any(size16_t state_idx, size16_t symbol_idx, const struct sitvec* symbol_situations)
+__CPROVER_requires(state_idx < state_count && state_count >= 1 && state_count <= state_count_cap && symbol_idx < symbol_count && symbol_situations == &states__situations_by_symbol[state_idx][symbol_idx]
+   && __CPROVER_forall { size_t vq_t0; (vq_t0 < PH_STATES) ==> (vq_t0 < state_count ==> AS_ITEMS_OK(vq_t0)) })
+__CPROVER_assigns(g_tr_hit, state_count, __CPROVER_object_whole(states__all_situations_vec))
+/* may add a state (then its kernel items are listed); lists of existing states only grow */
+__CPROVER_ensures(state_count >= __CPROVER_old(state_count) && state_count <= state_count_cap && g_tr_hit == (__CPROVER_old(g_tr_hit) || (state_idx == g_s && symbol_idx == g_y2))
+   && __CPROVER_forall { size_t vq_t1; (vq_t1 < PH_STATES) ==> (vq_t1 < state_count ==> AS_ITEMS_OK(vq_t1)) }
+   && (g_s < __CPROVER_old(state_count) ==> AS_GROW(g_s)));
+bool vx_add_situation_root(size16_t state_idx, size32_t sit_idx, bool to_kernel)
+__CPROVER_requires(state_idx < state_count && sit_idx < situation_address_space_size && states__all_situations_vec[state_idx].current_size == 0 && states__all_situations_vec[state_idx].N == max_sit_count_per_state_cap)
+__CPROVER_assigns(g_root_added, g_root_item, states__all_situations_vec[state_idx])
+__CPROVER_ensures(g_root_added && g_root_item == sit_idx && to_kernel && states__all_situations_vec[state_idx].current_size == 1 && states__all_situations_vec[state_idx].the_data[0] == sit_idx && states__all_situations_vec[state_idx].N == __CPROVER_old(states__all_situations_vec[state_idx]).N);
